@@ -445,6 +445,8 @@ def populate_summary(stmts: list[ast.stmt]) -> tuple[dict[str, dict[str, object]
     def val(e: ast.expr) -> object:
         if isinstance(e, ast.Name):
             return env.get(e.id, "?")
+        if isinstance(e, ast.Attribute) and isinstance(e.value, ast.Name) and isinstance(env.get(e.value.id), tuple) and env[e.value.id][0] == "RECORD":  # type: ignore[index]
+            return env[e.value.id][1].get(e.attr, "?")  # type: ignore[index]
         if isinstance(e, ast.Subscript) and norm(e.value) in TABLES:
             return tables[norm(e.value)].get(norm(e.slice), "?")
         if isinstance(e, ast.Dict) and all(k is None for k in e.keys) and len(e.values) == 2:
@@ -488,6 +490,31 @@ def populate_summary(stmts: list[ast.stmt]) -> tuple[dict[str, dict[str, object]
                     store(t.elts[1], "PR")
                 elif isinstance(t, ast.Name):
                     env[t.id] = "PAIR"
+            continue
+        # a private NamedTuple of later origin wrapped around the pair: R(*process_node_fields(cls, ASTNode)) / R(*pair) / R(a, b)
+        from ..normalize import NAMEDTUPLE_FIELDS
+        if isinstance(v, ast.Call) and (dotted(v.func) or "") in NAMEDTUPLE_FIELDS and not v.keywords and len(targets) == 1 \
+                and isinstance(targets[0], ast.Name):
+            names_ = [n_ for n_, _d in NAMEDTUPLE_FIELDS[dotted(v.func)]]
+            parts: list[object] | None = None
+            if len(v.args) == 1 and isinstance(v.args[0], ast.Starred):
+                inner = v.args[0].value
+                if len(names_) != 2:
+                    pass
+                elif isinstance(inner, ast.Call) and dotted(inner.func) == "process_node_fields":
+                    if [norm(x) for x in inner.args] != ["cls", "ASTNode"] or inner.keywords:
+                        problems.append(f"classifier called as {norm(inner)[:60]}")
+                    parts = ["CH", "PR"]
+                elif isinstance(inner, ast.Name) and env.get(inner.id) == "PAIR":
+                    parts = ["CH", "PR"]
+            elif len(v.args) == len(names_) and not any(isinstance(a_, ast.Starred) for a_ in v.args):
+                parts = [val(a_) for a_ in v.args]
+            if parts is not None:
+                env[targets[0].id] = ("RECORD", dict(zip(names_, parts)))
+                continue
+        if isinstance(v, ast.Attribute) and isinstance(v.value, ast.Name) and isinstance(env.get(v.value.id), tuple) and env[v.value.id][0] == "RECORD":  # type: ignore[index]
+            for t in targets:
+                store(t, env[v.value.id][1].get(v.attr, "?"))  # type: ignore[index]
             continue
         if isinstance(v, ast.Subscript) and isinstance(v.value, ast.Name) and env.get(v.value.id) == "PAIR" and isinstance(v.slice, ast.Constant):
             for t in targets:
@@ -620,7 +647,7 @@ def r_types_cache(ck: Checker, rule: str = "R-TYPES-CACHE") -> None:
             if set(lf.assign) - {k_in, k_get}:
                 raise Unsupported(f"{q} decides on {sorted(lf.assign)}", g.node)
             hit = lf.assign.get(k_in) if k_in in lf.assign else (not lf.assign[k_get] if k_get in lf.assign else None)
-            pops = [c for st in lf.stmts for c in ast.walk(st) if isinstance(c, ast.Call) and dotted(c.func) == "_populate_type_dicts"]
+            pops = [c for st in list(lf.stmts) + ([lf.value] if lf.value is not None else []) for c in ast.walk(st) if isinstance(c, ast.Call) and dotted(c.func) == "_populate_type_dicts"]
             if hit is None:
                 gbad = "the table is not consulted"
             elif hit and pops:
@@ -628,6 +655,9 @@ def r_types_cache(ck: Checker, rule: str = "R-TYPES-CACHE") -> None:
             elif not hit and not (len(pops) == 1 and [norm(x) for x in pops[0].args] == [cp]):
                 gbad = f"a miss does not populate the tables for {cp}"
             if lf.outcome != "return" or lf.val() not in (f"{table}[{cp}]",) + ((f"{table}.get({cp})",) if hit else ()):
+                if not gbad and not hit and "_populate_type_dicts(" in (lf.val() or ""):
+                    # the populating function hands back what it has just stored: which of its results that is, is not read here
+                    raise Unsupported(f"{q}: a miss returns {lf.val()[:60]} (a result of the populating call, not the table entry)", g.node)
                 gbad = gbad or f"returns {lf.val()}"
         (ck.holds if not gbad else ck.violation)(rule, g, g.node, what, **({"evaluations": len(gl)} if not gbad else {"construct": f"{q}: {gbad}"}))
 
